@@ -747,6 +747,8 @@ def run(ctx):
 
 def replay(ctx, path):
     d = json.load(open(path))['replay']
+    if 'disposition' not in d:
+        return None
     real = run_real(d['disposition'], tuple(d['plan']), d['ops'])
     print(real)
     bad = oracle(d['disposition'], tuple(d['plan']), d['ops'], real)
